@@ -21,7 +21,8 @@ SHAPES = {
     "order2": ["name/a.b", "name/a/b"],       # 'a.b' sorts before 'a/b' as a path, after 'a' as a name
     "nested4": ["name/x/a", "name/x/b", "name/y/a", "name/z"],
     "deep2": ["name/p/q/r/a", "name/p/b"],
-    "samedir2": ["name/d/a", "name/d/b"],          # two files in one sub-directory
+    "samedir2": ["name/d/a", "name/d/b"],
+    "samename2": ["name/d1/t.dat", "name/d2/t.dat"],   # two different files with the same base name          # two files in one sub-directory
     "dir1": ["name/a"],                             # a directory holding exactly one file
     "case2": ["name/README", "name/readme"],       # names that collide when case is folded
     "selfname": ["name/name", "name/z"],          # a file called like the torrent inside the payload root
